@@ -11,6 +11,7 @@ import (
 	"os"
 	"os/exec"
 	"path/filepath"
+	"runtime"
 	"strings"
 	"sync"
 	"sync/atomic"
@@ -109,6 +110,17 @@ func cachePut(key string, c *cachedRun) {
 	}
 }
 
+// procSem bounds the number of solver processes this run has alive at any time (one per CPU): more would only make
+// each of them slower and turn wall-clock budgets into timeouts.
+var procSem = make(chan struct{}, maxInt(4, runtime.NumCPU()))
+
+func maxInt(a, b int) int {
+	if a > b {
+		return a
+	}
+	return b
+}
+
 // runSolverTimed streams the solver's stdout and records when each result line arrived.
 func runSolverTimed(s solverSpec, file string, ms int, hardMs int) ([]string, []int64, []string, error) {
 	key := cacheKey(s.name, ms, file)
@@ -128,6 +140,8 @@ func runSolverTimed(s solverSpec, file string, ms int, hardMs int) ([]string, []
 var cacheHits int64
 
 func runSolverTimedNoCache(s solverSpec, file string, ms int, hardMs int) ([]string, []int64, []string, error) {
+	procSem <- struct{}{}
+	defer func() { <-procSem }()
 	ctx, cancel := context.WithTimeout(context.Background(), time.Duration(hardMs)*time.Millisecond)
 	defer cancel()
 	argv := s.argv(file, ms)
@@ -188,10 +202,21 @@ func runSolverCtx(parent context.Context, s solverSpec, file string, ms int, har
 }
 
 func runSolverCtxNoCache(parent context.Context, s solverSpec, file string, ms int, hardMs int) (string, error) {
-	ctx, cancel := context.WithTimeout(parent, time.Duration(hardMs)*time.Millisecond)
+	select {
+	case procSem <- struct{}{}:
+	case <-parent.Done():
+		return "", fmt.Errorf("cancelled")
+	}
+	defer func() { <-procSem }()
+	// The budget of a standalone run is CPU time (ulimit -t), so that a loaded machine makes the run slower but not
+	// fail; the solver's own soft timeout and the hard wall-clock limit are eight times the budget.
+	cpuS := (ms + 999) / 1000
+	wall := 8 * ms
+	ctx, cancel := context.WithTimeout(parent, time.Duration(wall+hardMs-ms)*time.Millisecond)
 	defer cancel()
-	argv := s.argv(file, ms)
-	cmd := exec.CommandContext(ctx, argv[0], argv[1:]...)
+	argv := s.argv(file, wall)
+	sh := fmt.Sprintf("ulimit -t %d; exec \"$@\"", cpuS)
+	cmd := exec.CommandContext(ctx, "bash", append([]string{"-c", sh, "solver"}, argv...)...)
 	var out bytes.Buffer
 	cmd.Stdout = &out
 	cmd.Stderr = &out
